@@ -82,7 +82,7 @@ _wrapper("alpha", XS + "alpha", [XS + "peak_wave_period", NP + "alpha"], dims=("
 
 
 CHUNKINGS = [{"freq": 2}, {"dir": 3}, {"time": 1}, {"time": 1, "site": 1, "freq": 1, "dir": 1}, {"freq": (1, 3, 2), "dir": (5, 3)}, {"site": 1, "freq": 3}]
-OPS = ["stats", "split_stats", "smooth", "interp", "rotate", "scale_by_hs", "ptm1", "ptm3", "ptm4", "ptm5", "gamma_alpha"]
+OPS = ["stats", "split_stats", "smooth", "interp", "rotate", "scale_by_hs", "ptm1", "ptm3", "ptm4", "ptm5", "gamma_alpha", "ptm1_track", "ptm2", "hp01"]
 
 
 @contract(SA + "stats", props=["C07"], name="dask_equals_memory",
@@ -102,9 +102,10 @@ def v_dask(c, op):
     f = 0.05 * 1.2 ** np.arange(nf)
     d = np.arange(nd) * 45.0
     E = r.uniform(0, 3, (nt, ns, nf, nd)) * np.exp(-((np.arange(nf)[None, None, :, None] - 2.5) / 1.5) ** 2)
+    tcoord = np.datetime64("2022-01-01T00", "s") + np.arange(nt) * np.timedelta64(3600, "s") if op == "ptm1_track" else np.arange(nt)
     ds = xr.Dataset({"efth": (("time", "site", "freq", "dir"), E), "wspd": (("time", "site"), r.uniform(3, 20, (nt, ns))),
                      "wdir": (("time", "site"), r.uniform(0, 360, (nt, ns))), "dpt": (("time", "site"), r.uniform(10, 80, (nt, ns)))},
-                    coords={"time": np.arange(nt), "site": [1, 2], "freq": f, "dir": d})
+                    coords={"time": tcoord, "site": [1, 2], "freq": f, "dir": d})
 
     def run(x):
         e = x["efth"]
@@ -130,6 +131,12 @@ def v_dask(c, op):
             return e.spec.partition.ptm5(0.09)
         if op == "gamma_alpha":
             return xr.merge([e.spec.gamma().rename("gamma"), e.spec.alpha().rename("alpha")])
+        if op == "ptm1_track":
+            return e.spec.partition.ptm1_track(x.wspd, x.wdir, x.dpt, swells=2)
+        if op == "ptm2":
+            return e.spec.partition.ptm2(x.wspd, x.wdir, x.dpt, swells=2)
+        if op == "hp01":
+            return e.spec.partition.hp01(x.wspd, x.wdir, x.dpt, swells=2)
 
     with warnings.catch_warnings():
         warnings.simplefilter("ignore")
@@ -150,3 +157,55 @@ def v_dask(c, op):
         except AssertionError as e:
             same = False
         c.ensure_true("chunked_equals_in_memory", same, f"{op} chunks={ch} scheduler={sched}")
+
+
+@contract("wavespectra.partition.partition:Partition.ptm3", props=["C07"], name="threaded_stress", scenarios=[{"method": "ptm3"}, {"method": "ptm1"}], replays=1)
+def v_threaded_stress(c, method):
+    """BOUNDED (run-time contract, schedules sampled not enumerated): 400 multi-modal spectra, one per chunk,
+    partitioned under the threaded scheduler with 16 workers and a 1 microsecond interpreter switch interval (many
+    interleavings around the calls into the C extension and its Python wrapper); every spectrum must come back
+    exactly as in memory and as with the synchronous scheduler"""
+    if c.m.symbolic:
+        c.ensure_true("placeholder_structural", True)
+        return
+    import sys
+    import warnings
+
+    import numpy as np
+    import xarray as xr
+
+    r = np.random.default_rng(c.rng.randint(0, 2**31))
+    n, nf, nd = 400, 25, 24
+    f = 0.04 * 1.1 ** np.arange(nf)
+    d = np.arange(0, 360, 360 / nd)
+    E = np.zeros((n, nf, nd))
+    for _ in range(3):
+        fp, dp = r.uniform(0.06, 0.3, n), r.uniform(0, 360, n)
+        amp, sf, sd = r.uniform(0.1, 2, n), r.uniform(0.01, 0.04, n), r.uniform(10, 30, n)
+        dd = (d[None, :] - dp[:, None] + 180) % 360 - 180
+        E += amp[:, None, None] * np.exp(-0.5 * ((f[None, :, None] - fp[:, None, None]) / sf[:, None, None]) ** 2) * np.exp(-0.5 * (dd[:, None, :] / sd[:, None, None]) ** 2)
+    ds = xr.Dataset({"efth": (("time", "freq", "dir"), E), "wspd": (("time",), r.uniform(3, 20, n)), "wdir": (("time",), r.uniform(0, 360, n)),
+                     "dpt": (("time",), r.uniform(10, 80, n))}, coords={"time": np.arange(n), "freq": f, "dir": d})
+
+    def run(x):
+        if method == "ptm3":
+            return x.efth.spec.partition.ptm3(parts=3)
+        return x.efth.spec.partition.ptm1(x.wspd, x.wdir, x.dpt, swells=2)
+
+    old = sys.getswitchinterval()
+    with warnings.catch_warnings():
+        warnings.simplefilter("ignore")
+        ref = run(ds).values
+        lazy = run(ds.chunk({"time": 1}))
+        sync = lazy.compute(scheduler="synchronous").values
+        c.ensure_true("synchronous_equals_in_memory", bool(np.array_equal(ref, sync, equal_nan=True)), "synchronous scheduler differs from in-memory")
+        try:
+            sys.setswitchinterval(1e-6)
+            bad = 0
+            for _ in range(2):
+                thr = lazy.compute(scheduler="threads", num_workers=16).values
+                neq = ~((ref == thr) | ((ref != ref) & (thr != thr)))
+                bad = max(bad, int(neq.any(axis=tuple(k for k in range(neq.ndim) if k != 1)).sum()))
+        finally:
+            sys.setswitchinterval(old)
+    c.ensure_true("threaded_16_workers_equals_in_memory_for_every_spectrum", bad == 0, f"{bad} of {n} spectra differ under the threaded scheduler")
